@@ -81,6 +81,20 @@ mut("v1_resume_without_pop", "violation", "source/async_mutex_v1.cpp",
     else { pendingQueue_.push_front(extra); }
   }""",
     "v1 unlock resumes two waiters of a fresh batch at once (double hand-off)")
+mut("list_push_back_hint_after_unlock", "violation", "source/atomic_intrusive_list.cpp",
+    """    UNIFEX_VERIF_YIELD("mutex.l.pb4");
+    sentinel_.self.store(&item->rest, std::memory_order_release);
+
+    UNIFEX_VERIF_YIELD("mutex.l.pb5");
+    unlock(*pred_link, to_value(item));""",
+    """    UNIFEX_VERIF_YIELD("mutex.l.pb4");
+    unlock(*pred_link, to_value(item));
+
+    UNIFEX_VERIF_YIELD("mutex.l.pb5");
+    sentinel_.self.store(&item->rest, std::memory_order_release);""",
+    "push_back swings the tail hint after unlocking the predecessor link: a second pusher takes the same link (orphaned waiter) "
+    "- caught by the full-granularity sweep (deadlock = lost waiter); the bulk driver is built with -DNDEBUG so that "
+    "UNIFEX_ASSERT(pred_val == sentinel) does not abort first")
 RESUME_OLD = """            if (try_complete(op)) {
               op->forwardingOp_.start(*op);
             } else {"""
